@@ -50,6 +50,19 @@ Lemma GA_snoc l x : (forall y, In y l -> is_evict y = true -> okeff y) -> (is_ev
   forall y, In y (l ++ [x]) -> is_evict y = true -> okeff y.
 Proof. intros H Hx y I. apply in_app_or in I. destruct I as [I|[I|[]]]; [auto|subst; auto]. Qed.
 
+Lemma GA_app l l' : (forall y, In y l -> is_evict y = true -> okeff y) ->
+  (forall y, In y l' -> is_evict y = true -> okeff y) ->
+  forall y, In y (l ++ l') -> is_evict y = true -> okeff y.
+Proof. intros H H' y I. apply in_app_or in I. destruct I as [I|I]; auto. Qed.
+
+(* [In y (l ++ [a]) ++ [b]) ...]: the recorded calls so far, plus what this stage appended *)
+Ltac ga_tail tac :=
+  rewrite <- ?app_assoc in *; cbn [app] in *;
+  match goal with HI : In ?x (?l ++ ?l') |- _ =>
+    eapply (GA_app l l'); [ eauto | | exact HI | assumption ] end;
+  let y := fresh "y" in let Hy := fresh "Hy" in
+  intros y Hy; cbn in Hy; repeat (destruct Hy as [<-|Hy]); try contradiction; cbn; intros; tac.
+
 Ltac openA :=
   repeat match goal with
   | H : RA _ _ |- _ => destruct H as (H & ? & ?)
@@ -59,7 +72,7 @@ Ltac openA :=
 Ltac fin :=
   openA; unfold RA, EA, IA, GA in *; cbn;
   repeat match goal with |- _ /\ _ => split end; intros; try assumption; try congruence;
-  try (eapply GA_snoc; eauto; cbn; intros; discriminate);
+  try (ga_tail discriminate);
   try (enum_unfold; congruence); auto.
 
 Lemma A_timeout c : EA c -> sat IA EA (st_timeout e c).
@@ -89,7 +102,8 @@ Proof.
   intros H GO. unfold st_schedok. stage_exec; try (fin; fail).
   all: unfold PA, nodeok, check_cached.
   all: try (openA; unfold IA, GA in *; cbn;
-            repeat match goal with |- _ /\ _ => split end; try assumption; try congruence).
+            repeat match goal with |- _ /\ _ => split end; try assumption; try congruence;
+            try (intros; ga_tail discriminate)).
   (* rnode = 0, or Status.NodeName already set *)
   all: try match goal with
     | Hb : (rnode _ =? 0) || negb (jnode (cj _) =? 0) = true, Hj : jnode (cj _) = jnode j0 |- _ =>
@@ -139,13 +153,13 @@ Lemma A_evict_call r p c :
   sat IA IA (st_evict_call e c).
 Proof.
   intros H C P (G1 & G2 & G3) NS NO. unfold st_evict_call. rewrite C, P.
-  assert (OK : forall b, okeff (mkEff EEvict b (stamp_of (Some r) (Some p)))).
+  assert (OK : forall b, okeff (mkEff EEvict b (stamp_of (Some r) (Some p)) 0)).
   { intros b. unfold okeff, secured, other_node. cbn.
     repeat match goal with |- _ /\ _ => split end; auto.
     destruct NO as [N|[N|N]]; auto. }
   stage_exec; openA; unfold IA, GA in *; cbn;
     repeat match goal with |- _ /\ _ => split end; intros; try assumption;
-    eapply GA_snoc; eauto.
+    ga_tail ltac:(first [discriminate | apply OK]).
 Qed.
 
 Lemma A_evict r c : PA r c -> sat IA IA (st_evict fx e c).
